@@ -329,6 +329,29 @@ def main(argv):
             out = fb.get(line, [])
             c.count((fl, line), bucket="sanitizer/" + fl)
             oracle(c, line + " # " + fl, out if out else ["E -1 MISSING"])
+    # --- thorough: the unbounded queue inside a real wrapper under TSan (its consumer-side Empty() is used by foldfilter)
+    if c.tier == "thorough":
+        ok, blog = build_repo(["foldfilter"], flavour="tsan")
+        if not ok:
+            c.broken.append("tsan build of foldfilter failed: " + blog[-400:])
+        else:
+            data = b"".join(b"line %d %s\n" % (i % 700, b"w" * (i % 13)) for i in range(3000))
+            env = dict(os.environ)
+            env["TSAN_OPTIONS"] = "halt_on_error=0:exitcode=66"
+            child = os.path.join(VERIF, "harness", "children", "child.py")
+            try:
+                p = subprocess.run([repo_bin("foldfilter", "tsan"), "-w", "20", child, "eager"], input=data,
+                                   stdout=subprocess.PIPE, stderr=subprocess.PIPE, env=env, timeout=600)
+                err = p.stderr.decode("latin1")
+            except subprocess.TimeoutExpired:
+                err = "timeout"
+            c.count(("tsan", "foldfilter"), bucket="sanitizer/tsan-wrapper")
+            if "ThreadSanitizer" in err or err == "timeout":
+                i = err.find("WARNING: ThreadSanitizer")
+                site = "UnboundedSingleQueue::Empty" if re.search(r"#0 Empty .*pcqueue\.hh", err) else "other"
+                c.violation("data-race: ThreadSanitizer reports a data race in foldfilter (%s): %s" % (site, " ".join(err[i:i + 400].split())),
+                            {"tool": "foldfilter -w 20 harness/children/child.py eager", "input": "3000 short lines", "site": site,
+                             "report": err[i:i + 1500]})
     return c.finish(level="proof",
                     rule="executions of the real templates under the deterministic scheduler: ALL interleavings (semaphore granularity) of 0-6 items for the unbounded queue incl. item counts crossing the 1023-entry page, PCQueue capacity 1-3 with 1-3 producers/consumers and <= 6 items, block-ring writes below/at/above the block size wrapping the 3-block ring; finest granularity (every shared access a scheduling point) for smaller scenarios; seeded random schedules for thousands of items; each execution compared step by step (thread, program point, enabled set, result) with the extracted Coq transition system; evaluations = executions",
                     assumptions=["semaphores and mutexes are sequentially consistent synchronisation primitives; effects of a thread between two scheduling points are atomic w.r.t. the other threads (data races inside such a segment are only observed by the ASan/TSan runs)",
